@@ -302,7 +302,9 @@ def explore(prop, tier, seed, log):
         rc2, out2, err2 = run_harness(["cases", prop, tier, str(seed)])
         if rc2 != 0:
             r["errors"].append(f"harness scenarios exited with {rc2}: {err2[-300:]}")
-        hl += [l for l in out2.split("\n") if l.startswith(("ORACLE ", "STAT "))]
+        # the harness's own cases of this property (ids are decimal, the driver's end in a letter):
+        # they go through the correspondence with the model like the generated ones
+        hl += [l for l in out2.split("\n") if l.startswith(("ORACLE ", "STAT ", "CASE ", "IMPL "))]
     else:
         rc, out, err = run_harness(["cases", prop, tier, str(seed)])
         if rc != 0:
